@@ -52,7 +52,7 @@ fn eval1(src: &str, ctx: &mut fend_core::Context, ms: u64) -> Sx {
 }
 
 fn history(ctx: &mut fend_core::Context, stmts: &[String]) -> Vec<Sx> {
-    stmts.iter().map(|s| eval1(s, ctx, 5000)).collect()
+    stmts.iter().map(|s| eval1(s, ctx, 1500)).collect()
 }
 
 /// every probe (with `$` replaced by the variable name) for every name, each on
